@@ -39,9 +39,13 @@ Inductive case :=
 | CObf (psk : bsrc) (salt : list byte) (inp : bsrc) (outcap : nat) (n : nat) (out : bobs)
 | CDeobf (psk : bsrc) (inp : bsrc) (outcap : nat) (n : nat) (out : bobs)
 | CStream (psk : bsrc) (plen : nat) (items : list item) (ws : list wobs) (rs : list robs)
-          (lkw lkr : list bool).
+          (lkw lkr : list (option bool)).
   (* lkw: per WriteTo that returned, was the writing wrapper's writeMutex found held afterwards;
-     lkr: per ReadFrom that returned, was the reading wrapper's readMutex found held afterwards *)
+     lkr: per ReadFrom that returned, was the reading wrapper's readMutex found held afterwards.
+     Some b = observed (the field exists in the tree under test and is a sync.Mutex);
+     None = not observed (the tree has no such field): that component is not compared, the number of
+     calls still is.  The harness reports per case which fields it could observe and the driver
+     refuses a None for a field the source declares. *)
 
 (* model side of the writes: events delivered to the reader, write results and the writing
    wrapper's writeMutex after each call, in order; the calls run through the lock model
@@ -76,6 +80,15 @@ Fixpoint bools_eqb (a b : list bool) : bool :=
   | _, _ => false
   end.
 
+(* observed lock states against the model's: an unobserved component matches anything *)
+Fixpoint lobs_eqb (a : list (option bool)) (b : list bool) : bool :=
+  match a, b with
+  | [], [] => true
+  | x :: a', y :: b' =>
+      match x with Some v => Bool.eqb v y | None => true end && lobs_eqb a' b'
+  | _, _ => false
+  end.
+
 Definition w_ok (p : wobs * (list byte * nat * option N)) : bool :=
   let '(o, (wire, n, e)) := p in
   obs_ok (w_wire o) wire && Nat.eqb (w_n o) n && optN_eqb (w_err o) e.
@@ -107,11 +120,11 @@ Definition check (c : case) : bool :=
       match run_items (bytes_of psk) items (mkL false false) with
       | None => false
       | Some (evs, wr, lk) =>
-          Nat.eqb (length ws) (length wr) && forallb w_ok (combine ws wr) && bools_eqb lkw lk &&
+          Nat.eqb (length ws) (length wr) && forallb w_ok (combine ws wr) && lobs_eqb lkw lk &&
           match read_seq Hm (bytes_of psk) (repeat plen (S (length evs))) evs with
           | Ok res => Nat.eqb (length rs) (length res) && forallb r_ok (combine rs res) &&
                       (* every iteration of the reading wrapper releases readMutex (read_iter_lk; C13_locks_released) *)
-                      bools_eqb lkr (map (fun _ => false) res)
+                      lobs_eqb lkr (map (fun _ => false) res)
           | _ => false
           end
       end
